@@ -539,6 +539,15 @@ static void hang(const char *what, long n)
 	vrt_fatal("Hang", n, 71);
 }
 
+/* the leaver that brought the count to zero, between that atomic step and its clean-up of the flag bits / its wake-up:
+ * re-entries, new waiters and new notifiers of the next generation land here (seed C07-1).  Hold it there now and then. */
+static void group_post_steer(struct dispatch_verif_site_s *s, const volatile void *a, int obj)
+{
+	(void)a; (void)obj;
+	if (strcmp(s->dvs_func, "dispatch_group_leave") || s->dvs_op[0] == 'l' || s->dvs_op[0] == 'c') return;
+	if ((vrt_rand() % 4) == 0) usleep(100 + (unsigned)(vrt_rand() % 900));
+}
+
 int main(int argc, char **argv)
 {
 	const char *out = argc > 1 ? argv[1] : "/dev/null";
@@ -548,6 +557,7 @@ int main(int argc, char **argv)
 	if (argc > 5) g_ops = atoi(argv[5]);
 	if (argc > 6) g_steered = atoi(argv[6]);
 	vrt_init(out, g_seed, perturb);
+	if (perturb > 0) vrt_set_post_steer(group_post_steer);
 	vrt_set_projector(proj);
 	vrt_set_steer(steer);
 	vrt_add_class("dg_state", 1);
